@@ -2,13 +2,13 @@
 import vlib, gen, gen_prog, runlib
 from gen_prog import FLAG, run_line, parse_obs, head
 
-LEVEL = "proof"
+LEVEL = "other"
 FAMILY = "run"
 
 MANIFEST = {
- "level": "proof",
+ "level": "other",
  "text": "Proved about the Gallina models of runtime_dialect.rs + f_table.rs and chia_dialect.rs (Props/C30.v), for every primitives record, fuel, program, environment and budget: (1) for each of the 256 one-byte opcodes the standard table maps it to the same operator function as ChiaDialect's dispatch, or both treat it as unknown, except the opcodes ChiaDialect gates by flags or defines only itself (48 coinid, 60 under DISABLE_OP without NEW_COST_MODEL, 62-65); multi-byte opcodes other than the two 4-byte secp opcodes are unknown to both. (2) RuntimeDialect hands its flag word unchanged to the operators while ChiaDialect::new clears LIMITS under NEW_COST_MODEL: every operator function of either table is proved insensitive to ENABLE_GC and, under NEW_COST_MODEL, to LIMITS and DISABLE_OP (C30_flags_unobservable, all 47 operator functions). (3) Hence by lock-step simulation through a barrier dialect (Err Unsupported on every opcode the dispatch functions do not share and on the softfork keyword): every run that does not meet the barrier has the same result, cost and error kind on RuntimeDialect{F} and ChiaDialect{F} for EVERY flag set F without ENABLE_GC and DISABLE_OP (C30_run: no further premise; the earlier exclusion of NEW_COST_MODEL+LIMITS is gone), and on RuntimeDialect{F} and ChiaDialect{F minus ENABLE_GC and DISABLE_OP} for every F that has NEW_COST_MODEL or lacks DISABLE_OP (C30_run_all; C30_run_words on 32-bit flag words). (4) For F with DISABLE_OP and without NEW_COST_MODEL the comparison with ChiaDialect{F minus DISABLE_OP} is refuted by a computed witness, reproduced on the implementation: op_div/op_divmod/op_mod read DISABLE_OP themselves (dividend over 2048 bytes), RuntimeDialect passes the bit on: (/ (q . 0x01^2049) (q . 3)) is InvalidOpArg on RuntimeDialect{DISABLE_OP} and Ok 29709 on ChiaDialect{} (C30_minus_disable_op_refuted); for that class, and every other F, RuntimeDialect{F} = ChiaDialect{F minus ENABLE_GC} outside opcode 60 is proved (C30_run_minus_gc). The model is run against the implementation under both dialects; the search compares the two dialects on the implementation under all combinations of NEW_COST_MODEL, LIMITS, DISABLE_OP, ENABLE_GC with operands at the 256/1024/2048-byte limits.",
- "note": vlib.NOTE_COMMON + " Reading of 'the same flags minus ENABLE_GC and DISABLE_OP': as flag sets that contain neither, the statement is C30_run and is proved whole; as RuntimeDialect{F} vs ChiaDialect{F minus the two bits} it is proved for every F except DISABLE_OP without NEW_COST_MODEL, where it is false for the code as written (witness above; not a defect of RuntimeDialect, which consistently forwards its flags).",
+ "note": vlib.NOTE_COMMON + " Level 'other': the statement compares RuntimeDialect{F} with ChiaDialect{F minus ENABLE_GC and DISABLE_OP}; that is proved for every F except DISABLE_OP without NEW_COST_MODEL (C30_run_all / C30_run_words), where it is false for the code as written (C30_minus_disable_op_refuted; finding F11 in known_findings.json: RuntimeDialect forwards DISABLE_OP to div/divmod/mod); for that class the proved relation is with ChiaDialect{F minus ENABLE_GC} on programs without modpow (C30_run_minus_gc). The check makes the literal comparison on every generated program and reports anything outside the F11 class.",
  "technique": "Coq proof (opcode-by-opcode comparison of the two dispatch functions; per-operator flag-insensitivity lemmas lifted through both tables with Forall over all_ops; lock-step simulation of two dialects through a barrier dialect; bit-level lemma for flag words) + model/implementation differential run + implementation search RuntimeDialect vs ChiaDialect over all flag bits with size-boundary operands",
 }
 
@@ -91,8 +91,15 @@ def run(ctx):
     cur_tag = [""]
     skipped = 0
 
+    literal = []     # the statement read literally, where it differs from the proved relation
+
     def add(p, e, f, m):
         g, rel = reference_flags(f)
+        if rel == "minus_gc":
+            # DISABLE_OP without NEW_COST_MODEL: the statement itself says ChiaDialect{f minus ENABLE_GC and
+            # DISABLE_OP}; that comparison is made too (finding F11 lives here)
+            literal.append((run_line(p, e, f=f, m=m, d="rt"), run_line(p, e, f=f & ~GC & ~DIS, m=m, d="chia"),
+                            run_line(p, e, f=f & ~GC, m=m, d="chia"), p))
         if rel == "minus_gc" and (mentions_modpow(p) or mentions_modpow(e)):
             ctx.histogram("relation", "skipped:modpow-under-DISABLE_OP")
             return
@@ -130,6 +137,19 @@ def run(ctx):
             ctx.violation("RuntimeDialect and ChiaDialect disagree on result, cost or error kind (relation %s)" % rel,
                           {"family": "run", "case": l0[:3000], "impl": o0, "chia_case": l1[:3000], "chia": o1})
     runlib.check_no_panic(ctx, [x[0] for x in lines], a)
+    la = vlib.run_impl("run", [x[0] for x in literal])
+    lb = vlib.run_impl("run", [x[1] for x in literal])
+    lc = vlib.run_impl("run", [x[2] for x in literal])
+    for (l0, l1, l2, p), o0, o1, o2 in zip(literal, la, lb, lc):
+        runlib.count_case(ctx, l0 + " #literal", nontrivial=(o1 or "").startswith("ok"))
+        if head(o0) != head(o1):
+            # F11: RuntimeDialect forwards DISABLE_OP to op_div / op_divmod / op_mod, which reject a dividend
+            # above 2048 bytes without NEW_COST_MODEL: the run equals ChiaDialect WITH DISABLE_OP (the program
+            # not using modpow, which only ChiaDialect disables)
+            f11 = head(o0) == head(o2) and head(o0).startswith("err InvalidOpArg") and any(("a%s;" % c) in p for c in ("13", "14", "3d"))
+            ctx.violation("RuntimeDialect{F} differs from ChiaDialect{F minus ENABLE_GC and DISABLE_OP}",
+                          {"family": "run", "case": l0[:3000], "impl": o0, "chia_case": l1[:3000], "chia": o1,
+                           "class": "F11" if f11 else "other"})
 
     # probes: the two Coq witnesses of the DISABLE_OP-without-NEW_COST_MODEL class, on the implementation
     from gen_prog import op, q, i2a
